@@ -85,13 +85,17 @@ func c20guard(f func() c20out, mayHang bool) (o c20out) {
 		}()
 		ch <- f()
 	}()
-	select {
-	case o = <-ch:
-		return o
-	case <-time.After(30 * time.Second):
-		c20leaked++
-		return c20out{hung: true}
+	// a hang is declared only after 60 separate half-second waits this process really sat through (one
+	// wall-clock reading could jump while the process is frozen)
+	for tick := 0; tick < 60; tick++ {
+		select {
+		case o = <-ch:
+			return o
+		case <-time.After(500 * time.Millisecond):
+		}
 	}
+	c20leaked++
+	return c20out{hung: true}
 }
 
 // c20run executes op on the implementation.
